@@ -6,9 +6,9 @@ CONSTANTS
   MsgVals = {3}
   WrongKeys = {4}
   WrongMsgs = {2}
-  Deltas = {1, 3, 4}
+  Deltas = {1, 4}
   SameModes = {FALSE}
-  MaxTouched = 3
+  MaxTouched = 2
   GenWithRepeat = FALSE
   AsCoded = TRUE
 INVARIANTS TypeOK Completeness SoundNonCancelling SingleFaultDetected BatchSplitIndependent OnlyGapIsCancelling
